@@ -941,6 +941,17 @@ def evaluate_helpers(res):
 def evaluate(ctx, res, env, bulk, fams):
     core.import_typelib()
     J = Judge(res)
+
+    def legal(s):
+        # an expression Python itself refuses (e.g. a bare typing.Optional as a type argument) is not an annotation: skipped
+        try:
+            env.mat(s)
+            return True
+        except Exception:  # noqa: BLE001
+            res.count("skipped-illegal-annotation")
+            return False
+    bulk = [s for s in bulk if legal(s)]
+    fams = [[s if (s is None or legal(s)) else None for s in fam] for fam in fams]
     # spelled variants never share a child: typing / builtin spellings go to different buckets
     buckets = {}
     for s in bulk:
